@@ -634,7 +634,10 @@ class Share:
         if self._overrun_ok:
             # easy! this includes version number, sizes, and offsets
             want_it.add(0, 1024)
-            return
+            # ...but the version number and the offset table are still
+            # indispensable: fall through, so that a share too short to
+            # hold them is abandoned (DataUnavailable) instead of being
+            # asked for the same bytes forever
 
         # v1 has an offset table that lives [0x0,0x24). v2 lives [0x0,0x44).
         # To be conservative, only request the data that we know lives there,
